@@ -161,7 +161,64 @@ def discharge_texts(obligations, timeout_s=20, nproc=None):
             outs = pool.map(_solve_one, jobs, chunksize=1)
     for idx, status, model, t, backend in outs:
         results[idx] = {"status": status, "model": model, "time_s": round(t, 3), "backend": backend}
+    # second round for the unknowns: longer budget, another seed; then a candidate
+    # counterexample from the quantifier-free relaxation (for the replay, never a verdict)
+    retry = [(i, obligations[i]["smt2"], int(timeout_s * 3000), 17) for i, r in enumerate(results)
+             if r["status"] == "unknown"]
+    if retry:
+        with mp.get_context("fork").Pool(min(nproc, len(retry), 8)) as pool:
+            outs = pool.map(_solve_retry, retry, chunksize=1)
+        for idx, status, model, t, backend in outs:
+            prev = results[idx]
+            results[idx] = {"status": status, "model": model, "time_s": round(prev["time_s"] + t, 3),
+                            "backend": backend}
     return results
+
+
+def _has_quantifier(e, cache):
+    stack = [e]
+    seen = set()
+    while stack:
+        x = stack.pop()
+        xid = x.get_id()
+        if xid in seen:
+            continue
+        seen.add(xid)
+        if z3.is_quantifier(x):
+            return True
+        stack.extend(x.children())
+    return False
+
+
+def _solve_retry(job):
+    idx, text, timeout_ms, seed = job
+    t0 = time.time()
+    try:
+        s = z3.Solver()
+        s.set("timeout", timeout_ms)
+        s.set("random_seed", seed)
+        s.from_string(text)
+        r = s.check()
+        if r == z3.unsat:
+            return idx, "unsat", None, time.time() - t0, "z3(retry)"
+        if r == z3.sat:
+            return idx, "sat", _model_dict(s.model()), time.time() - t0, "z3(retry)"
+        # relaxation: drop the quantified hypotheses; a model of the rest is a *candidate*
+        s2 = z3.Solver()
+        s2.set("timeout", 10000)
+        for a in s.assertions():
+            if not _has_quantifier(a, None):
+                s2.add(a)
+        r2 = s2.check()
+        model = None
+        if r2 == z3.sat:
+            model = _model_dict(s2.model())
+            model["_relaxed"] = "candidate from the quantifier-free relaxation (may be spurious)"
+        elif r2 == z3.unsat:
+            return idx, "unsat", None, time.time() - t0, "z3(qf-relaxation)"
+        return idx, "unknown", model or {"reason": s.reason_unknown()}, time.time() - t0, "z3(retry)"
+    except Exception as exc:
+        return idx, "unknown", {"reason": "z3 exception %r" % (exc,)}, time.time() - t0, "z3(retry)"
 
 
 def _sat_one(job):
